@@ -449,7 +449,7 @@ Proof.
   exfalso. apply U1 in C1. rewrite En in C1. 
   assert (~ (norm_slot p a t2 = (t2 - a) / p + 1)) by lia.
   apply H. apply U2. destruct C1 as [Hr0 [[Hh Ho]|Hh]]; split; try lia.
-  destruct (Z.eq_dec ((t1 - a) mod p) ((t2 - a) mod p)); [left; split; [lia|exact Ho]|right; lia].
+  all: try (destruct (Z.eq_dec ((t1 - a) mod p) ((t2 - a) mod p)); [left; split; [lia|exact Ho]|right; lia]).
 Qed.
 
 (* ------------------------------------------------------------------ all observers, any state *)
@@ -511,11 +511,9 @@ Proof.
   - unfold get_timestamp. rewrite Ho, Hn. unfold spec_newest.
     destruct (spec_oldest (cap b) a) as [o|] eqn:Eo.
     + assert (Hcov : 0 < spec_covered (cap b) a).
-      { rewrite <- Hc. unfold count_covered in *. rewrite Ho, Hn in *. unfold spec_newest in *. rewrite Eo in *.
-        destruct (s_new a) as [n|]; [|lia].
-        destruct (newest b) as [n'|] eqn:En; [|destruct (count_valid_empty _ _ HI En) as (_ & _ & H3); congruence].
-        pose proof (inv_facts _ _ _ HI En) as F. destruct (spec_oldest_range _ _ _ _ F Eo). rewrite (f_snew _ _ _ F) in *.
-        lia. }
+      { destruct (newest b) as [n'|] eqn:En; [|destruct (count_valid_empty _ _ HI En) as (_ & _ & H3); congruence].
+        pose proof (inv_facts _ _ _ HI En) as F. destruct (spec_oldest_range _ _ _ _ F Eo).
+        unfold spec_covered. rewrite Eo, (f_snew _ _ _ F). lia. }
       destruct (s_new a) as [n|] eqn:Esn.
       * rewrite Hc.
         pose proof (slice_adj_range (spec_covered (cap b) a) s 0 ltac:(lia) ltac:(lia)).
@@ -524,7 +522,7 @@ Proof.
         destruct (slice_adj (spec_covered (cap b) a) e (spec_covered (cap b) a) >=? 0) eqn:E2; [|lia].
         apply window_slots_inv. exact HI.
       * unfold spec_covered in Hcov. rewrite Eo, Esn in Hcov. lia.
-    + exfalso. unfold count_covered in E. rewrite Ho, Eo in E. lia.
+    + exfalso. unfold count_covered in E. rewrite Ho in E. lia.
 Qed.
 
 Lemma count_valid_zero_oldest : forall b, count_valid b = 0 -> oldest_ts b = None.
@@ -562,8 +560,9 @@ Proof.
     destruct ((t <? ts_of p al o) || (t >? ts_of p al n)) eqn:Eout; [reflexivity|].
     set (k := norm_slot p al t).
     assert (Hk : o <= k <= n).
-    { unfold k. rewrite <- (norm_slot_grid p al o Hp) at 1. rewrite <- (norm_slot_grid p al n Hp) at 2.
-      split; apply norm_slot_mono; lia. }
+    { unfold k. pose proof (norm_slot_grid p al o Hp) as G1. pose proof (norm_slot_grid p al n Hp) as G2.
+      pose proof (norm_slot_mono p al (ts_of p al o) t Hp ltac:(lia)).
+      pose proof (norm_slot_mono p al t (ts_of p al n) Hp ltac:(lia)). lia. }
     rewrite (f_map _ _ _ F k) by lia.
     destruct (is_missing (gaps b) k); [reflexivity|].
     rewrite (to_idx_in b n k En) by lia. reflexivity.
@@ -589,4 +588,45 @@ Proof.
   intros. unfold spec_window, spec_cover. rewrite map_length.
   destruct (spec_oldest c a); [|cbn; lia]. destruct (s_new a); [|cbn; lia].
   rewrite length_zrange. lia.
+Qed.
+
+(* values of the abstract map are values some update of the history wrote to that very slot *)
+Lemma spec_run_values : forall c h a0 j v,
+  s_map (spec_run c a0 h) j = Some v -> s_map a0 j = Some v \/ In (j, Some v) h.
+Proof.
+  intros c. induction h as [|[k w] h IH]; intros a0 j v H; cbn [spec_run fold_left] in H; [left; exact H|].
+  apply IH in H. destruct H as [H|H]; [|right; right; exact H].
+  unfold spec_step, spec_update in H. cbn [fst snd] in H.
+  destruct (match s_new a0 with Some n => k <? n - c + 1 | None => false end); [left; exact H|].
+  cbn [s_map] in H. destruct (j =? k) eqn:E.
+  - right. left. assert (j = k) by lia. subst. reflexivity.
+  - destruct (j <? _) in H; [discriminate|left; exact H].
+Qed.
+
+(* normalize_timestamp picks the nearest slot, the even one at equal distance (even periods:
+   timedelta / 2 is then exact) *)
+Lemma norm_slot_nearest : forall p a t, 0 < p -> p mod 2 = 0 ->
+  let k := norm_slot p a t in
+  - p <= 2 * (t - ts_of p a k) <= p /\
+  (2 * (t - ts_of p a k) = p \/ 2 * (t - ts_of p a k) = - p -> k mod 2 = 0).
+Proof.
+  intros p a t Hp Hev. cbv zeta.
+  destruct (norm_slot_cases p a t Hp) as [C U]. cbv zeta in *.
+  pose proof (Z.div_mod (t - a) p ltac:(lia)) as D. pose proof (Z.mod_pos_bound (t - a) p Hp) as B.
+  pose proof (Z.div_mod p 2 ltac:(lia)) as Dp.
+  assert (Hh : td_half p = p / 2) by (unfold td_half; rewrite Hev; reflexivity).
+  rewrite Hh in U. unfold ts_of.
+  set (n := (t - a) / p) in *. set (r := (t - a) mod p) in *.
+  pose proof (Z.mod_pos_bound n 2 ltac:(lia)) as Bn.
+  destruct C as [C|C]; rewrite C.
+  - assert (Hno : ~ (r <> 0 /\ (p / 2 = r /\ n mod 2 <> 0 \/ p / 2 < r))) by (intro X; apply U in X; lia).
+    split; [nia|]. intros [X|X]; [|nia].
+    assert (r = p / 2) by nia. destruct (Z.eq_dec (n mod 2) 0); [assumption|]. exfalso. apply Hno. split; [lia|left; split; [lia|assumption]].
+  - apply U in C. destruct C as [Hr [[Hq Ho]|Hq]].
+    + split; [nia|]. intros [X|X]; [nia|].
+      replace (n + 1) with (n + 1 * 2 - 1) by lia. 
+      assert (n mod 2 = 1) by lia.
+      pose proof (Z.div_mod n 2 ltac:(lia)).
+      symmetry. apply (Z.mod_unique _ _ (n / 2 + 1)); lia.
+    + split; [nia|]. intros [X|X]; nia.
 Qed.
